@@ -150,6 +150,15 @@ def normal_logpdf(x, mu, sigma):
     return -math.log(sigma) - 0.5 * math.log(2 * math.pi) - 0.5 * z * z
 
 
+def _fsum(it):
+    vals = list(it)
+    if any(v != v for v in vals):
+        return math.nan
+    if any(v == -math.inf for v in vals):
+        return -math.inf
+    return math.fsum(vals)
+
+
 # --------------------------------------------------------------------------------------------------
 # parameter table
 # --------------------------------------------------------------------------------------------------
@@ -342,6 +351,26 @@ class RefModel:
             out[c] = tot
         return out
 
+    def structural_zero(self, cname, b):
+        """True if bin b of the channel is zero for every parameter value (all yields/variations 0)."""
+        for s in self.by_channel[cname]["samples"]:
+            if s["data"][b] != 0:
+                return False
+            for m in s["modifiers"]:
+                if m["type"] == "histosys" and (m["data"]["lo_data"][b] != 0 or m["data"]["hi_data"][b] != 0):
+                    return False
+        return True
+
+    def rates_safely_positive(self, pars, floor=1e-6):
+        """every bin's rate is > floor, or the bin is structurally zero (no rounding-sensitive zeros)."""
+        e = self.expected_main(pars)
+        for c in self.channels:
+            for b, v in enumerate(e[c]):
+                if v != v or v < floor:
+                    if not (v == 0 and self.structural_zero(c, b)):
+                        return False
+        return True
+
     def expected_main_flat(self, pars):
         e = self.expected_main(pars)
         return [v for c in self.channels for v in e[c]]
@@ -385,11 +414,12 @@ class RefModel:
         ]
 
     def logpdf_parts(self, pars, maindata, aux):
+        """(main log term sum, constraint log term sum, sum of |finite terms|)."""
         mt = self.main_terms(pars, maindata)
         ct = self.constraint_terms(pars, aux)
-        main = math.fsum(t[2] for t in mt)
-        con = math.fsum(t[2] for t in ct)
-        scale = math.fsum(abs(t[2]) for t in mt) + math.fsum(abs(t[2]) for t in ct)
+        main = _fsum(t[2] for t in mt)
+        con = _fsum(t[2] for t in ct)
+        scale = math.fsum(abs(t[2]) for t in mt + ct if math.isfinite(t[2]))
         return main, con, scale
 
     def nominal_aux(self):
